@@ -3,6 +3,7 @@
 cd "$(dirname "$0")" || exit 2
 set -e
 /venv/bin/python vf/translate.py > /dev/null
+/venv/bin/python vf/mkroot.py
 cd lean
 lake build QExPy driver 2>&1 | grep -v '^✔' | tail -40
 test -x .lake/build/bin/driver
